@@ -4,6 +4,7 @@ import (
 	"fmt"
 	"go/token"
 	"go/types"
+	"sort"
 	"strings"
 
 	"golang.org/x/tools/go/ssa"
@@ -266,4 +267,220 @@ func backSliceLocal(fn *ssa.Function, v ssa.Value) map[ssa.Value]bool {
 	}
 	visit(v)
 	return seen
+}
+
+// RunKeepPerLookup: the glyph filter a lookup is applied with is made from
+// that lookup's own flags and mark filtering set.  Every store into the
+// context's keep field in a function that also stores the current lookup
+// runs whenever the lookup is stored (it is not skipped on a condition), or
+// the condition under which it is skipped reads every field of the lookup's
+// meta information that the filter reads (flags AND mark filtering set).
+func RunKeepPerLookup(w *World, r *Report, fns []*ssa.Function) {
+	r.Rule("keepperlookup: where the shaping context takes up a lookup (store to the lookup field), the glyph filter (keep field) is rebuilt from that lookup's meta information on every path; a filter carried over from the previous lookup is accepted only under a test that compares every meta field the filter reads (LookupFlags and MarkFilteringSet)")
+	// fields of the meta information that the filter reads
+	need := map[string]bool{}
+	if kf := w.Func("(*opentype/gtab.keepFunc).Keep"); kf != nil {
+		for _, b := range kf.Blocks {
+			for _, in := range b.Instrs {
+				if fa, ok := in.(*ssa.FieldAddr); ok {
+					if p, ok := fa.X.Type().Underlying().(*types.Pointer); ok {
+						if n, ok := p.Elem().(*types.Named); ok && n.Obj().Name() == "LookupMetaInfo" {
+							need[fieldName(fa)] = true
+						}
+					}
+				}
+			}
+		}
+	}
+	if len(need) == 0 {
+		r.Fatal("keepperlookup: the meta fields read by (*keepFunc).Keep could not be determined")
+		return
+	}
+	n := 0
+	for _, fn := range fns {
+		if !strings.HasSuffix(fnPkgPath(fn), "/opentype/gtab") {
+			continue
+		}
+		var lookupStores, keepStores []*ssa.Store
+		var cc map[*ssa.BasicBlock][]ssa.Value
+		for _, b := range fn.Blocks {
+			for _, in := range b.Instrs {
+				if st, ok := in.(*ssa.Store); ok {
+					fa, ok := st.Addr.(*ssa.FieldAddr)
+					if !ok {
+						continue
+					}
+					if p, ok := fa.X.Type().Underlying().(*types.Pointer); !ok || !strings.HasSuffix(p.Elem().String(), "gtab.Context") {
+						continue
+					}
+					switch fieldName(fa) {
+					case "lookup":
+						lookupStores = append(lookupStores, st)
+					case "keep":
+						keepStores = append(keepStores, st)
+					}
+				}
+			}
+		}
+		for _, ls := range lookupStores {
+			n++
+			key := r.MkKey("keepperlookup", fnName(fn), "filter for the lookup taken up")
+			ok := false
+			detail := "the context takes up a lookup here but the glyph filter is not rebuilt in this function: the lookup is applied with the filter of an earlier lookup"
+			for _, ks := range keepStores {
+				// same block, or the keep store's block post-dominates: approximated by "dominates every successor path": the
+				// store must be in a block that the lookup store's block dominates and that is not control-dependent on anything else
+				kb, lb := ks.Block(), ls.Block()
+				if kb == lb {
+					ok = true
+					break
+				}
+				if !lb.Dominates(kb) {
+					continue
+				}
+				// conditions between the two stores (control dependence, so that a || b is seen as both)
+				var conds []ssa.Value
+				if cc == nil {
+					cc = controlConds(fn)
+				}
+				for _, c := range cc[kb] {
+					if ci, isI := c.(ssa.Instruction); isI && ci.Block() != nil && lb.Dominates(ci.Block()) {
+						conds = append(conds, c)
+					}
+				}
+				if len(conds) == 0 {
+					ok = true
+					break
+				}
+				// a conditional rebuild: the test must read every needed meta field
+				read := map[string]bool{}
+				for _, c := range conds {
+					for v := range backSlice(c) {
+						if fa, isFA := v.(*ssa.FieldAddr); isFA {
+							read[fieldName(fa)] = true
+						}
+					}
+				}
+				var missing []string
+				for f := range need {
+					if !read[f] {
+						missing = append(missing, f)
+					}
+				}
+				sort.Strings(missing)
+				if len(missing) == 0 {
+					ok = true
+					break
+				}
+				detail = "the glyph filter is rebuilt only under a test that does not look at " + strings.Join(missing, ", ") + " of the lookup's meta information, which the filter reads: two lookups that agree on what the test compares but differ there are applied with the same filter"
+			}
+			if ok {
+				r.OK("keepperlookup", key, w.Pos(ls.Pos()), "the filter is rebuilt from the lookup's meta information")
+			} else {
+				r.Fail("keepperlookup", key, w.Pos(ls.Pos()), detail, nil)
+			}
+		}
+	}
+	if n == 0 {
+		r.Fail("keepperlookup", r.MkKey("keepperlookup", "opentype/gtab", "filter for the lookup taken up"), "-", "no function stores the context's current lookup", nil)
+	}
+	r.Floor("keepperlookup", 1)
+}
+
+// RunSkipExit: the matchers step over glyphs that the lookup flags exclude
+// with loops of the form `for A && !keep.Keep(seq[p].GID) { p++ }` (or p--),
+// where A keeps p inside the window.  Such a loop ends either on a glyph the
+// filter keeps or because A failed; in the second case seq[p] is a glyph the
+// filter did not examine (or excluded) and must not be matched.  At every
+// read of seq[p] behind the loop the prover has to show that A still holds —
+// which it can only if the code rejects exactly the complement of A first.
+// An off-by-one between the loop's window test and the rejecting test lets
+// an excluded glyph at the edge of the window take part in a match.
+func RunSkipExit(w *World, r *Report, br *boundsRun, fns []*ssa.Function) {
+	r.Rule("skipexit: behind every skipping loop `for A && !Keep(seq[p]) { step p }` of package gtab, each read of seq[p] (same position value) lies where the prover shows the window condition A: the loop was left on a kept glyph, not because the window ended (rejecting test and window test are complements)")
+	for _, fn := range fns {
+		if !strings.HasSuffix(fnPkgPath(fn), "/opentype/gtab") || fn.Blocks == nil {
+			continue
+		}
+		var p *bprover
+		for _, l := range naturalLoops(fn) {
+			// head: if A goto X else exit; X: k = Keep(seq[p].GID); if k goto exit2 else body
+			if len(l.head.Instrs) == 0 {
+				continue
+			}
+			hif, ok := l.head.Instrs[len(l.head.Instrs)-1].(*ssa.If)
+			if !ok {
+				continue
+			}
+			A, ok := hif.Cond.(*ssa.BinOp)
+			if !ok {
+				continue
+			}
+			x := l.head.Succs[0]
+			if !l.body[x] || len(x.Instrs) == 0 {
+				continue
+			}
+			xif, ok := x.Instrs[len(x.Instrs)-1].(*ssa.If)
+			if !ok {
+				continue
+			}
+			kc, ok := xif.Cond.(*ssa.Call)
+			if !ok || kc.Call.StaticCallee() == nil || kc.Call.StaticCallee().Name() != "Keep" {
+				continue
+			}
+			if l.body[x.Succs[0]] { // the loop continues while Keep is false: the true edge leaves it
+				continue
+			}
+			// the position: index of the seq element whose GID is handed to Keep
+			var pos ssa.Value
+			var seqv ssa.Value
+			for v := range backSlice(kc.Call.Args[len(kc.Call.Args)-1]) {
+				if ia, ok := v.(*ssa.IndexAddr); ok {
+					pos, seqv = ia.Index, ia.X
+				}
+			}
+			if pos == nil {
+				continue
+			}
+			if p == nil {
+				p = br.prover(fn)
+			}
+			// facts that make up A
+			var afacts []bfact
+			p.condFacts(A, true, &afacts)
+			if len(afacts) == 0 {
+				continue
+			}
+			// reads of seq[pos] outside the loop
+			for _, b := range fn.Blocks {
+				if l.body[b] {
+					continue
+				}
+				for _, in := range b.Instrs {
+					ia, ok := in.(*ssa.IndexAddr)
+					if !ok || ia.Index != pos || !sameSliceValue(ia.X, seqv) {
+						continue
+					}
+					if !l.head.Dominates(b) {
+						continue
+					}
+					key := r.MkKey("skipexit", fnName(fn), "read of the element the skipping loop stopped at")
+					proved := true
+					for _, f := range afacts {
+						if f.ne {
+							continue
+						}
+						if !p.proveAt(b, f.e) {
+							proved = false
+						}
+					}
+					if proved {
+						r.OK("skipexit", key, w.Pos(ia.Pos()), "the window condition of the loop holds here")
+					} else {
+						r.Fail("skipexit", key, w.Pos(ia.Pos()), "the element is read although the skipping loop at "+w.Pos(A.Pos())+" may have ended because its window condition failed rather than on a glyph the filter keeps: the test that rejects the position is not the complement of the loop's window test, so at the edge of the window a glyph the lookup flags exclude is matched", nil)
+					}
+				}
+			}
+		}
+	}
 }
